@@ -34,7 +34,10 @@ Record ns_st := ns_mkst {
   ns_est : bool;              (* session->state == COAP_SESSION_STATE_ESTABLISHED *)
   ns_act : Z;                 (* session->con_active (uint8_t) *)
   ns_dq : list ns_node;       (* session->delayqueue *)
-  ns_sq : list ns_node        (* nodes of this session in context->sendqueue (order: first transmission) *)
+  ns_sq : list ns_node;       (* nodes of this session in context->sendqueue (order: first transmission) *)
+  ns_lg : list Z              (* session->lg_crcv: requests that got an empty ACK and wait for a
+                                 separate response (newest first); only consulted by a disconnect
+                                 that has nothing else to report *)
 }.
 
 (* nack reasons = coap_nack_reason_t *)
@@ -69,9 +72,9 @@ Definition ns_nmid (n : ns_node) : Z := ns_mid (ns_nmsg n).
 Definition ns_inc (a : Z) : Z := (a + 1) mod 256.
 
 Definition ns_set_sq (s : ns_st) (q : list ns_node) : ns_st :=
-  ns_mkst (ns_open s) (ns_est s) (ns_act s) (ns_dq s) q.
+  ns_mkst (ns_open s) (ns_est s) (ns_act s) (ns_dq s) q (ns_lg s).
 Definition ns_set_act (s : ns_st) (a : Z) : ns_st :=
-  ns_mkst (ns_open s) (ns_est s) a (ns_dq s) (ns_sq s).
+  ns_mkst (ns_open s) (ns_est s) a (ns_dq s) (ns_sq s) (ns_lg s).
 
 (* the while loop of coap_session_connected():
    -> (con_active, rest of the delay queue, CON nodes handed to coap_wait_ack, datagrams) *)
@@ -96,7 +99,7 @@ Fixpoint ns_drain (c : ns_cfg) (act : Z) (dq : list ns_node)
 (* coap_session_connected() *)
 Definition ns_connected (c : ns_cfg) (s : ns_st) : ns_st * list ns_out :=
   match ns_drain c (ns_act s) (ns_dq s) with
-  | (a, r, snt, o) => (ns_mkst (ns_open s) true a r (ns_sq s ++ snt), o)
+  | (a, r, snt, o) => (ns_mkst (ns_open s) true a r (ns_sq s ++ snt) (ns_lg s), o)
   end.
 
 (* "if (session->con_active) { session->con_active--; if (ESTABLISHED) coap_session_connected(); }" *)
@@ -132,16 +135,20 @@ Definition ns_submit (c : ns_cfg) (s : ns_st) (m : ns_msg) : ns_st * list ns_out
   if negb (ns_est s) || (ns_con m && (ns_nstart c <=? ns_act s)) then
     (* coap_session_delay_pdu(session, pdu, NULL) *)
     if existsb (fun q => ns_nmid q =? ns_mid m) (ns_dq s) then (s, [NsRef])
-    else (ns_mkst (ns_open s) (ns_est s) (ns_act s) (ns_dq s ++ [ns_mknode m 0]) (ns_sq s), [NsAcc])
+    else (ns_mkst (ns_open s) (ns_est s) (ns_act s) (ns_dq s ++ [ns_mknode m 0]) (ns_sq s) (ns_lg s), [NsAcc])
   else if ns_con m then
-    (ns_mkst (ns_open s) (ns_est s) (ns_inc (ns_act s)) (ns_dq s) (ns_sq s ++ [ns_mknode m 0]), [NsAcc; NsTx m])
+    (ns_mkst (ns_open s) (ns_est s) (ns_inc (ns_act s)) (ns_dq s) (ns_sq s ++ [ns_mknode m 0]) (ns_lg s), [NsAcc; NsTx m])
   else (s, [NsAcc; NsTx m]).
 
 (* case COAP_MESSAGE_ACK of coap_dispatch *)
 Definition ns_ack (c : ns_cfg) (s : ns_st) (mid : Z) : ns_st * list ns_out :=
   match ns_remove mid (ns_sq s) with
   | None => (s, [])
-  | Some (n, q) => ns_dec_drain c (ns_set_sq s q)
+  | Some (n, q) =>
+    (* an empty ACK of a request: a lg_crcv entry is set up to wait for the separate response *)
+    match ns_dec_drain c (ns_set_sq s q) with
+    | (s1, o) => (ns_mkst (ns_open s1) (ns_est s1) (ns_act s1) (ns_dq s1) (ns_sq s1) (mid :: ns_lg s1), o)
+    end
   end.
 
 (* case COAP_MESSAGE_RST of coap_dispatch *)
@@ -174,9 +181,9 @@ Definition ns_tick (c : ns_cfg) (s : ns_st) (mid : Z) : ns_st * list ns_out :=
       let a1 := if ns_act s =? 0 then 0 else ns_act s - 1 in
       if negb (ns_est s) || (ns_ncon n && (ns_nstart c <=? a1)) then
         (* coap_session_delay_pdu(session, pdu, node): back to the delay queue *)
-        (ns_mkst (ns_open s) (ns_est s) a1 (ns_dq s ++ [n']) q, [])
+        (ns_mkst (ns_open s) (ns_est s) a1 (ns_dq s ++ [n']) q (ns_lg s), [])
       else
-        (ns_mkst (ns_open s) (ns_est s) (if ns_ncon n then ns_inc a1 else a1) (ns_dq s) (ns_bump mid (ns_sq s)),
+        (ns_mkst (ns_open s) (ns_est s) (if ns_ncon n then ns_inc a1 else a1) (ns_dq s) (ns_bump mid (ns_sq s)) (ns_lg s),
          [NsRe (ns_nmsg n)])
     else
       match ns_dec_drain c (ns_set_sq s q) with
@@ -209,14 +216,16 @@ Definition ns_drops (reason : Z) (l : list ns_node) : list ns_out :=
 (* coap_session_disconnected_lkd(session, reason) *)
 Definition ns_fail (c : ns_cfg) (s : ns_st) (reason : Z) : ns_st * list ns_out :=
   let first := match ns_sq s with n :: _ => [NsNack reason (ns_nmid n) true] | [] => [] end in
+  (* "Unable to determine which request disconnection was for": the newest request waiting for
+     a separate response, else a NACK without a pdu *)
+  let fallback := match ns_lg s with m :: _ => [NsNack reason m true] | [] => [NsNack reason 0 false] end in
   if reason =? ns_ICMP then
-    (s, match first with [] => [NsNack reason 0 false] | _ => first end)
+    (s, match first with [] => fallback | _ => first end)
   else
     let held := ns_drops reason (ns_dq s) in
     let sent_nack := match first, filter ns_ncon (ns_dq s) with [], [] => false | _, _ => true end in
-    (ns_mkst false (ns_udp c) 0 [] [],
-     first ++ held ++ (if sent_nack then [] else [NsNack reason 0 false]) ++
-     ns_nacks reason (ns_sq s)).
+    (ns_mkst false (ns_udp c) 0 [] [] [],
+     first ++ held ++ (if sent_nack then [] else fallback) ++ ns_nacks reason (ns_sq s)).
 
 (* A client session whose socket was closed by a disconnect: coap_send() fails ("Socket
    closed"), no datagram can arrive any more, its send and delay queues are empty. *)
@@ -234,7 +243,7 @@ Definition ns_step (c : ns_cfg) (s : ns_st) (e : ns_ev) : ns_st * list ns_out :=
   | NsFail r => ns_fail c s r
   end.
 
-Definition ns_init (est0 : bool) : ns_st := ns_mkst true est0 0 [] [].
+Definition ns_init (est0 : bool) : ns_st := ns_mkst true est0 0 [] [] [].
 
 (* the observable history: every event with what it produced *)
 Fixpoint ns_trace (c : ns_cfg) (s : ns_st) (evs : list ns_ev) : list (ns_ev * list ns_out) :=
@@ -413,4 +422,26 @@ Definition ns_ctx := Z -> ns_st.
 Definition ns_cstep (cf : Z -> ns_cfg) (x : ns_ctx) (sid : Z) (e : ns_ev) : ns_ctx * list ns_out :=
   match ns_step (cf sid) (x sid) e with
   | (s', o) => (fun k => if k =? sid then s' else x k, o)
+  end.
+
+(* ------------------------------------------------------------------------------------------
+   The peer of the property: it only acknowledges or resets messages it actually received,
+   i.e. message ids that were on the wire before. *)
+Fixpoint ns_peer_ok (seen : list Z) (t : list (ns_ev * list ns_out)) : bool :=
+  match t with
+  | [] => true
+  | (e, o) :: r =>
+    (match e with
+     | NsAck mid | NsRst mid => existsb (fun x => x =? mid) seen
+     | _ => true
+     end) && ns_peer_ok (seen ++ map ns_mid (ns_txs o)) r
+  end.
+
+(* submissions use fresh message ids (coap_new_message_id) unless they repeat one that is
+   still waiting (that one is refused) - stated on the event list *)
+Fixpoint ns_sub_mids (evs : list ns_ev) : list Z :=
+  match evs with
+  | [] => []
+  | NsSubmit m :: r => ns_mid m :: ns_sub_mids r
+  | _ :: r => ns_sub_mids r
   end.
